@@ -128,14 +128,18 @@ def perturbations(region, prng):
                 yield name + '.y', rebuild(**{name: PixCoord(float(x), float(y + max(abs(float(y)) * 1e-3, 1e-3)))})
         elif isinstance(v, SkyCoord):
             lon, lat = np.array(v.spherical.lon.deg, dtype=float), np.array(v.spherical.lat.deg, dtype=float)
+            # the 1-ulp neighbours are made in the units the coordinate object holds (degrees unless built otherwise)
+            held = v.data if hasattr(v.data, 'lon') else v.spherical
+            ulon, ulat = held.lon.unit, held.lat.unit
+            hlon, hlat = np.array(held.lon.value, dtype=float), np.array(held.lat.value, dtype=float)
             if lon.ndim:
-                l2 = lon.copy()
+                l2 = hlon.copy()
                 i = prng.randrange(len(l2))
                 l2[i] = np.nextafter(l2[i], 1000.0)
-                yield name + '.lon[i] 1ulp', rebuild(**{name: SkyCoord(l2, lat, unit='deg', frame=v.frame.name)})
+                yield name + '.lon[i] 1ulp', rebuild(**{name: SkyCoord(l2 * ulon, hlat * ulat, frame=v.frame.name)})
                 yield name + ' (one vertex fewer)', (rebuild(**{name: SkyCoord(lon[:-1], lat[:-1], unit='deg', frame=v.frame.name)}) if len(lon) > 3 else None)
             else:
-                yield name + '.lat 1ulp', rebuild(**{name: SkyCoord(float(lon), float(np.nextafter(lat, 1000.0)), unit='deg', frame=v.frame.name)})
+                yield name + '.lat 1ulp', rebuild(**{name: SkyCoord(float(hlon) * ulon, float(np.nextafter(hlat, 1000.0)) * ulat, frame=v.frame.name)})
                 other = 'galactic' if v.frame.name != 'galactic' else 'icrs'
                 yield name + ' frame', rebuild(**{name: SkyCoord(float(lon), float(lat), unit='deg', frame=other)})
                 if v.frame.name in ('fk5', 'fk4'):
